@@ -58,6 +58,39 @@ CHECKS["C03"] = dict(
     technique="stateful property-based testing with a reference-cursor oracle and a scan-vs-get differential",
 )
 
+CHECKS["C05"] = dict(
+    engine="store-driver",
+    category="exploration",
+    text="Store level: every compaction step of generated histories is bracketed by a full multi-version dump of all live ssts; non-GC steps must conserve the multiset exactly, GC steps may only drop entries the configured policy does not require (independent reading of the documented policy language) and never the deciding value of a key. Unit level: hundreds of thousands of generated (policy, per-key version pattern, now) cases drive GarbageCollectionPolicy::collector directly against the same independent reading.",
+    design_ref="DESIGN.md §5 C05",
+    note=STORE_NOTE + " Retaining more than required is allowed (sst::gc module docs), so the GC oracle is one-directional on purpose. Which step is a GC is reported by a guard-only hook.",
+    technique="stateful property-based testing with a multiset-conservation invariant and a reference policy evaluator",
+)
+CHECKS["C07"] = dict(
+    engine="store-driver",
+    category="exploration",
+    text="Deterministic half of the property: generated histories open up to three scan cursors, advance them with generated programs and keep them across writes, rollovers and flushes, compactions, GCs and verifier unlinks; everything a cursor returns is compared with a reference cursor over the model snapshot taken at open time, errors are violations, and a guard-only allocation registry in skipfree reports any dereference of a freed node; a process abort is attributed to the running case by the parent. Configurations include sst cache sizes 0 and 8 KiB so retired files are not masked by cached descriptors.",
+    design_ref="DESIGN.md §5 C07",
+    note=STORE_NOTE + " Cursors are closed before reopen. Thread interleavings are not owned by this check (see C06).",
+    technique="stateful property-based testing with snapshot-model comparison and a use-after-free detector hook",
+)
+CHECKS["C08"] = dict(
+    engine="store-driver",
+    category="exploration",
+    text="Generated histories with many verifier passes, reopens (orphan clean-up) and cursors held across retirements; after every operation every sst named by the live tree and by an independent parse of the manifest must exist in sst/, a verifier pass must not change sst/ nor remove the live MANIFEST, and the full read-back must still equal the model.",
+    design_ref="DESIGN.md §5 C08",
+    note=STORE_NOTE + " Crash points inside verifier passes and trash moves are explored by the C02 fault enumerator.",
+    technique="stateful property-based testing with a file-presence invariant and model read-back",
+)
+CHECKS["C20"] = dict(
+    engine="store-driver",
+    category="exploration",
+    text="Safety form of the liveness property over generated states: with small stall / mandatory thresholds and tight compaction limits, whenever the store reports that ingest must stall, compaction steps must lower level 0 below the threshold before the selector goes idle (an idle selector while stalled with nothing in progress is the violation; the step bound is NUM_LEVELS x (live files + 1) + 16 because trivial moves are preferred). 'Eventually' itself is out of reach of this technique.",
+    design_ref="DESIGN.md §5 C20",
+    note="Single-threaded step driving; thread-level lost wake-ups are not decided here. Known finding R-P (minimal L0 compaction exceeds max_compaction_files) is excluded by predicate and counted.",
+    technique="stateful property-based testing with a bounded-relief invariant over generated configurations",
+)
+
 NOT_YET = {
 }
 
